@@ -25,6 +25,6 @@ Extraction "model.ml"
   read_ssa read_ssa_lines write_ssa write_ssa_chunks style_keys style_from_string style_string event_from_string event_string
   find_sattr sattrs_all find_eattr eattrs_all parse_color format_color parse_bool parse_float3 format_float3 format_float_short
   parse_time text_lines item_text_ssa item_name event_item event_of_item info_parse info_bytes segments
-  ttml_time time_simple read_ttml doc_time_simple write_ttml write_ttml_bytes indent_doc format_ttml xml_parse ttml_enc ttml_dec ttml_optimize render_ttml denote_ttml ex_rendering ex_model xml_parse2 write_ttml_bytes_go xml_legal read_ttml_c write_ttml_c wdoc_proj ttml_unmarshal_c propagate_c print_node_go
+  ttml_time time_simple read_ttml doc_time_simple write_ttml write_ttml_bytes indent_doc format_ttml xml_parse ttml_enc ttml_dec ttml_dec2 ttml_optimize render_ttml denote_ttml ex_rendering ex_model xml_parse2 write_ttml_bytes_go xml_legal read_ttml_c write_ttml_c wdoc_proj ttml_unmarshal_c propagate_c print_node_go
   read_stl read_faithful write_stl write_faithful encode_text_stl text_faithful decode_bytes open_row stl_ttx_row
   parse_gsi gsi_faithful gsi_bytes parse_tti tti_bytes new_gsi new_tti sattr0_stl time_faithful stl_enc stl_dec read_stl_sched read_stl_fail_at write_stl_to.
